@@ -54,10 +54,15 @@ pub struct WorldSpec {
     pub real_entropy: bool,
     pub format: String,
     pub single_result: bool,
+    /// DisplayOptions.print_result (false = the benchmark configuration: execute but print nothing)
+    pub print_result: bool,
     pub engine_lines: Vec<String>,
     /// how often the whole query is executed on this one thread (C18)
     pub repeat: usize,
     pub event_budget: usize,
+    /// simulated duration of one EOF poll (0 = a spinning follower on a fast machine; seconds = a slow or
+    /// descheduled one, or equivalently a writer that pauses)
+    pub poll_cost_ns: u64,
 }
 
 impl WorldSpec {
@@ -77,9 +82,11 @@ impl WorldSpec {
             real_entropy: false,
             format: "text".to_owned(),
             single_result: false,
+            print_result: true,
             engine_lines: Vec::new(),
             repeat: 1,
             event_budget: 20_000,
+            poll_cost_ns: 0,
         }
     }
 }
@@ -111,6 +118,9 @@ pub struct WorldResult {
     pub engine: Vec<EngineOut>,
     pub getrandom_calls: usize,
     pub enoent: usize,
+    /// simulated nanoseconds that passed in this world
+    pub clock_ns: u64,
+    pub sleeps: u64,
 }
 
 impl WorldResult {
@@ -235,6 +245,11 @@ fn drive(spec: &WorldSpec, running: Arc<AtomicBool>) -> DriverOut {
         }
         println!("probe");
         let _ = std::io::stdout().flush();
+        // the clock seam: a one-second sleep must cost no real time and advance the virtual clock
+        let t0 = std::time::Instant::now();
+        std::thread::sleep(Duration::from_secs(1));
+        let elapsed = t0.elapsed();
+        seam::with_world(|w| w.on_deliver(format!("slept {}", elapsed.as_secs()).as_bytes()));
         return out;
     }
     if spec.mode == Mode::HashProbe {
@@ -270,6 +285,7 @@ fn drive(spec: &WorldSpec, running: Arc<AtomicBool>) -> DriverOut {
                 let mut display_options = DisplayOptions::default();
                 display_options.output_format = parse_format(&spec.format);
                 display_options.single_result = spec.single_result;
+                display_options.print_result = spec.print_result;
                 let executor = FileExecutor::with_output_printer(
                     running.clone(),
                     files,
@@ -437,6 +453,7 @@ pub fn run_world(spec: &WorldSpec) -> WorldResult {
             world.keys = spec2.keys.clone();
             world.real_entropy = spec2.real_entropy;
             world.event_budget = spec2.event_budget;
+            world.poll_cost_ns = spec2.poll_cost_ns;
             world.hard_stop = Some(hard_tx);
             seam::install(world);
 
@@ -464,6 +481,8 @@ pub fn run_world(spec: &WorldSpec) -> WorldResult {
                 engine: world.engine,
                 getrandom_calls: world.getrandom_calls,
                 enoent: world.enoent,
+                clock_ns: world.clock_ns,
+                sleeps: world.sleeps,
             };
             let _ = tx.send(Msg::Done(Box::new(res)));
         })
@@ -509,6 +528,8 @@ fn empty_result(status: Status, hard: bool, hung: bool) -> WorldResult {
         engine: Vec::new(),
         getrandom_calls: 0,
         enoent: 0,
+        clock_ns: 0,
+        sleeps: 0,
     }
 }
 
@@ -520,7 +541,7 @@ fn empty_result(status: Status, hard: bool, hung: bool) -> WorldResult {
 pub fn warm_up() {
     let defs = "CREATE TABLE t(line = 'k=([a-z]+) n=(-?[0-9]+)', line[1] => k TEXT, line[2] => n INT NOT NULL, line[1], line[2] => arr TEXT[], line[2], line[2], line[2] => d TIMESTAMP); CREATE TABLE u(line = split ';', line[1] => k TEXT TRIM, line[2] => m INT DEFAULT 3, { .a.b[0] } => j REAL);";
     let statements = [
-        "SELECT upper(k) AS u, n + 1, arr[1], EXTRACT(YEAR FROM d), CASE WHEN n > 1 THEN 'x' ELSE 'y' END, n::REAL, least(n, 2), regex_matches(k, 'a') FROM t WHERE n > 0 AND k IN ('a', 'b') OR NOT n IS NULL",
+        "SELECT upper(k) AS u, n + 1, arr[1], EXTRACT(YEAR FROM d), CASE WHEN n > 1 THEN 'x' ELSE 'y' END, n::text, least(n, 2), regexp_matches(k, 'a') FROM t WHERE n > 0 AND k IN ('a', 'b') OR NOT n IS NULL",
         "SELECT k, COUNT(*) AS c, MAX(n), SUM(n) * 2, COUNT(DISTINCT n), PERCENTILE(n, 0.5), STRING_AGG(k, ','), ARRAY_AGG(n), BOOL_AND(n > 1), STDDEV(n), VARIANCE(n), AVG(n), MIN(k) FROM t GROUP BY k HAVING SUM(n) > 0 AND k != 'q' LIMIT 5",
         "SELECT DISTINCT * FROM t OUTER JOIN u::'/simfs/warm_joined.log' ON t.k = u.k",
         "SELECT date_trunc('day', d), make_timestamp(2020, 1, 2, 3, 4, 5, 6), now() FROM t::'/simfs/main0.log'",
@@ -529,7 +550,12 @@ pub fn warm_up() {
         let mut spec = WorldSpec::new(defs, stmt, Mode::Batch);
         spec.files.push(("/simfs/main0.log".to_owned(), b"k=a n=1\nk=b n=2\nnoise\n".to_vec()));
         spec.extra_files.push(("/simfs/warm_joined.log".to_owned(), b"a;1\nb;2\n".to_vec()));
-        let _ = run_world(&spec);
+        let res = run_world(&spec);
+        if let Status::Setup(err) = &res.status {
+            // a warm-up statement that does not parse would leave lazily initialised state untouched
+            eprintln!("HARNESS ERROR: warm-up statement does not parse: {} ({})", stmt, err);
+            std::process::exit(2);
+        }
     }
     let mut spec = WorldSpec::new(defs, "SELECT k, COUNT(*) FROM t GROUP BY k", Mode::FollowExec { head: true });
     spec.files.push(("/simfs/follow.log".to_owned(), b"k=a n=1\n".to_vec()));
